@@ -279,9 +279,21 @@ func runCase(c Case) *ev.Verdict {
 	go func() { swg.Wait(); close(sessionsDone) }()
 	done := make(chan struct{})
 	go func() { wg.Wait(); close(done) }()
-	select {
-	case <-done:
-	case <-time.After(2 * drive.Watchdog):
+	finished := false
+	for ext := 0; !finished; ext++ {
+		select {
+		case <-done:
+			finished = true
+			continue
+		case <-time.After(2 * drive.Watchdog):
+		}
+		// a slow machine is not a hang: keep waiting while a gribigo frame can make progress
+		if ext < drive.MaxExtensions && drive.AnyBusyInGribigo(drive.Parse(drive.Dump())) {
+			continue
+		}
+		break
+	}
+	if !finished {
 		d := drive.Dump()
 		blocked := drive.BlockedInGribigo(drive.Parse(d))
 		if blocked != "" {
